@@ -181,6 +181,8 @@ def run(prog, tier) -> Result:
                 if o.kind == "raise":
                     if o.exc.name in ("ValueError", "TypeError"):
                         return None
+                    if getattr(o.exc, "tag", None) == "parse":
+                        return None     # text that is no number at all (e.g. '1/0'): rejected, whatever the class
                     return (exc_sig(o), "contract: ValueError / TypeError for rejected input")
                 me, ua, um_in, ub, ta_in = o.args
                 # currencies given by ISO code are judged by what was stored for them
